@@ -66,6 +66,21 @@ def wall_guard(seconds):
         signal.signal(signal.SIGALRM, old)
 
 
+@contextlib.contextmanager
+def cpu_guard(seconds):
+    """Like wall_guard, but counts the CPU time this process spends in user mode (ITIMER_VIRTUAL): independent of how
+    busy the machine is."""
+    def handler(signum, frame):
+        raise CallTimeout()
+    old = signal.signal(signal.SIGVTALRM, handler)
+    signal.setitimer(signal.ITIMER_VIRTUAL, seconds)
+    try:
+        yield
+    finally:
+        signal.setitimer(signal.ITIMER_VIRTUAL, 0)
+        signal.signal(signal.SIGVTALRM, old)
+
+
 class BudgetExhausted(Exception):
     """Raised inside a Hypothesis body to stop generation when the time budget is used up."""
 
